@@ -6,12 +6,15 @@ open Gk
 #print axioms C05_liveInv_init
 #print axioms C05_liveInv_step_partial
 #print axioms C05_liveInv_run_partial
+#print axioms C05_liveInv_step
+#print axioms C05_liveInv_run
+#print axioms C05_dispatchErr_sets_restart
 #print axioms C05_no_idle_timer
 #print axioms C05_no_idle_timer_run_partial
 #print axioms C05_never_late_or_owed
 #print axioms C05_armed_not_late
 #print axioms C05_owes_idle
-#print axioms C05_step_over_dispatchErr_witness
+#print axioms C05_step_over_dispatchErr_now
 #print axioms C05_D12_witness
 #print axioms C05_D12_fixed
 #print axioms C05_round_ends
@@ -26,5 +29,5 @@ open Gk
 #print axioms C20_dispInv_step_partial
 #print axioms C20_recovery_partial
 #print axioms C20_recovery_idle_partial
-#print axioms C20_step_over_dispatchErr_witness
+#print axioms C20_step_over_dispatchErr_now
 #print axioms C05_select_hook_fault_witness
